@@ -37,6 +37,7 @@ type Flavour struct {
 	Nil                                                                bool             // nil values and empty containers in operands
 	Meta                                                               bool             // create with source metadata
 	MoveBias                                                           bool             // bias towards element-moving operations (C15)
+	Overlap                                                            bool             // merge sources may be other parts of the destination's tree
 	Reattach                                                           bool             // configs removed from a tree are attached again with SetChild (also part of MoveBias)
 }
 
@@ -818,6 +819,10 @@ func (w *W) opMerge() string {
 			}
 			if h == dst || h.M.Root() != dst.M.Root() {
 				cands = append(cands, h)
+			} else if w.F.Overlap {
+				// a part of the destination's own tree: a section merged into its parent, a parent into
+				// one of its sections
+				cands = append(cands, h)
 			}
 		}
 		srcH = w.pick(cands, "merge-src-handle")
@@ -876,6 +881,8 @@ func (w *W) opMerge() string {
 		}
 		if srcH == dst {
 			w.R.Probe("merge: source and destination alias (self-merge)")
+		} else if srcH.M.Root() == dst.M.Root() {
+			w.R.Probe("merge: source is another part of the destination's tree")
 		}
 	}
 	if !w.F.Mixed {
@@ -1103,7 +1110,9 @@ func (w *W) opMerge() string {
 	var srcFP uint64
 	var srcDump string
 	var srcRoot *Handle
-	if srcH != nil && srcH != dst {
+	// (a source that is part of the destination's tree changes with it: only the resulting state is judged)
+	overlap := srcH != nil && srcH != dst && srcH.M.Root() == dst.M.Root()
+	if srcH != nil && srcH != dst && !overlap {
 		srcFP = fp.Fingerprint(srcH.C)
 		if w.R.Trace {
 			srcDump = fp.FingerprintDump(srcH.C)
@@ -1143,7 +1152,7 @@ func (w *W) opMerge() string {
 		w.R.Probe("merge: append/prepend onto non-empty list")
 	}
 
-	if srcH != nil && srcH != dst {
+	if srcH != nil && srcH != dst && !overlap {
 		after := fp.Fingerprint(srcH.C)
 		if after != srcFP {
 			d := ""
